@@ -556,7 +556,7 @@ def main(tier, seed, replay):
             r0 = c.results[0]
             verdict2 = second.get(core.workfile(PID, fn))
             if r0[0] == 'ok':
-                if verdict2 == 'valid':
+                if verdict2 == 'valid' and cls != 'wrong-version':      # the version is checked by the library, not by the schema
                     V.coverage['mutations_the_published_schema_allows'] = V.coverage.get('mutations_the_published_schema_allows', 0) + 1
                 else:
                     V.violation('schema-violation-accepted:%s' % cls, {'file': fn, 'class': cls, 'document': m, 'jsonschema': verdict2})
